@@ -741,6 +741,7 @@ int main(int argc, char** argv)
     }
     else
         return 2;
+    region.verify_all_poison();
     for (auto& e : region.errors)
         std::printf("oracle-fail ledger: %s\n", e.c_str());
     if (!region.outstanding.empty())
